@@ -53,7 +53,8 @@ def main():
         'setup_cmd': 'sh ./setup.sh',
         'hooks': {'guard': 'YABGP_VERIF', 'enable': 'none needed: the checks import /repo\'s working tree through '
                   'vf/loader.py (import hook with loop fuel and environment stubs); no in-repo hook exists',
-                  'baseline_off_cmd': 'cd /repo && /venv/bin/python -m pytest -q -p no:cacheprovider yabgp/tests',
+                  'baseline_off_cmd': 'cd /repo && /venv/bin/python -m pytest -ra -q -p no:cacheprovider --timeout=900 '
+                  '--continue-on-collection-errors',
                   'source_commits': [], 'add_only': True},
         'engines': [{'name': 'crosshair-z3', 'path': 'vf/engine',
                      'serves_properties': [c['property_id'] for c in checks],
